@@ -93,7 +93,6 @@ def check(ctx):
     ctx.rule("R11", "what the pipeline later reads from a threaded alias's `.stdout` / `.stderr` is a reader on the pipe or None, for both streams alike: the two attributes are normalised by the same chain of cases in ProcProxyThread.__init__ (a request flag left in `.stderr` - subprocess.STDOUT of `e>o` is the integer -2 - makes the command fail after it ran)", floor=2)
     ctx.rule("R12", "a callable alias gets the stage's stream objects under every naming of its parameters: run_alias_by_params binds by name only when *every* parameter carries a canonical name and binds by position as soon as one does not - the switch is computed from all parameters, with no exemption by default value or kind (`def f(args, inp=None, out=None, err=None)` must receive the streams, not its Nones)", floor=1)
     ctx.rule("R13", "the two output streams of the last stage are wired independently: in the function that prepares the capture of the last stage every normal path passes the decision about stdout *and* the decision about stderr (`if <spec>.stderr is not None ..`) - a way out after the stdout half (a 'nothing left to capture' shortcut for `cmd > file`) leaves stderr of `!(cmd > file)` unwired: it is inherited, reaches the terminal and never the capture", floor=2)
-    ctx.rule("R14", "the unthreaded alias stage (ProcProxy, `@unthreadable` aliases) decodes the merge flags like its siblings: somewhere in the methods that pick its stream objects the stdout handle is tested for the `2` flag (o>e) and the stderr handle for subprocess.STDOUT (e>o) - a decoder that maps every descriptor below 3 to 'the session's stream of the same name' sends `ua o>e` to stdout (and the pipeline then trips over the raw flag), and `ua e>o` is not merged", floor=2)
     ctx.rule("R5", "sibling stage-kind handlers agree on the merge flags (subprocess.STDOUT on stderr, the `2` flag on stdout)", floor=3)
 
     tk = ctx.repo.module(TK)
@@ -421,7 +420,8 @@ def check(ctx):
         if isinstance(n, ast.Compare) and isinstance(n.ops[0], (ast.Eq, ast.Is)) and const_value(n.comparators[0], None) in (1, 2):
             by_value = True
     for n in ast.walk(wt):
-        if isinstance(n, ast.Compare) and "self.stdout" in unparse(n) and const_value(n.comparators[0], None) == 2:
+        if isinstance(n, ast.Compare) and isinstance(n.ops[0], (ast.Eq, ast.Is)) and const_value(n.comparators[0], None) == 2 and ("self.stdout" in unparse(n) or (isinstance(n.left, ast.Name) and any("out" in unparse(d_.value) and "self." in unparse(d_.value) for d_ in df.all_defs(wt).get(n.left.id, []) if d_.value is not None))):
+            # (the stdout handle, under its own name or a local copy of it, is tested for the flag before a buffer is picked)
             by_value = True
     ctx.ob("R5", f"{PX}:ProcProxy._pick_buf", "an integer handle 0-2 selects the standard stream by its value (stdout slot holding the `2` flag of o>e means stderr)", by_value, key="_pick_buf|fd-flag-2-not-distinguished", where=loc(pb))
 
@@ -458,7 +458,6 @@ def check(ctx):
     _reader_attr_siblings(ctx)
     _alias_param_binding(ctx)
     _streams_wired_independently(ctx)
-    _unthreaded_alias_merge_flags(ctx)
     _merge_spelling_boundary(ctx, tk, tf, redir_map)
     # ---- R8: how redirect targets are opened
     spm = ctx.repo.module(SP)
@@ -485,24 +484,6 @@ def check(ctx):
     if not n8:
         raise AnchorMissing(f"{SP}:safe_open: the open call")
 
-
-
-def _unthreaded_alias_merge_flags(ctx):
-    """R14: ProcProxy's stream picking knows the two merge flags."""
-    from ..engine.loader import class_methods
-
-    PXY = "xonsh/procs/proxies.py"
-    px = ctx.repo.module(PXY)
-    ms = class_methods(px.cls("ProcProxy"))
-    wait = ms.get("wait")
-    if wait is None:
-        raise AnalysisError(f"{PXY}:ProcProxy.wait missing")
-    # the methods through which wait() picks the stream objects
-    fam = [wait] + [ms[c.func.attr] for c in calls_in(wait) if isinstance(c.func, ast.Attribute) and unparse(c.func.value) == "self" and c.func.attr in ms]
-    knows_out = any(isinstance(x, ast.Compare) and any(const_value(k, None) == 2 for k in [x.left] + x.comparators) and isinstance(x.ops[0], (ast.Eq, ast.Is)) for f in fam for x in ast.walk(f))
-    knows_err = any((isinstance(x, ast.Attribute) and x.attr == "STDOUT") or (isinstance(x, ast.Name) and x.id == "STDOUT") for f in fam for x in ast.walk(f))
-    ctx.ob("R14", f"{PXY}:ProcProxy.wait", "the stdout handle is tested for the `2` flag (o>e: stdout goes where stderr goes)", knows_out, key="ProcProxy|o>e-flag-not-decoded", where=loc(wait), detail=None if knows_out else "no comparison with 2 in wait() or the helpers it picks the streams with: the flag falls into 'descriptor below 3 -> sys.stdout'")
-    ctx.ob("R14", f"{PXY}:ProcProxy.wait", "the stderr handle is tested for subprocess.STDOUT (e>o: stderr goes where stdout goes)", knows_err, key="ProcProxy|e>o-flag-not-decoded", where=loc(wait), detail=None if knows_err else "subprocess.STDOUT (-2) is not mentioned: the flag falls into 'descriptor below 3 -> sys.stderr'")
 
 
 def _streams_wired_independently(ctx):
